@@ -137,6 +137,7 @@ Record facts := {
   f_reply_if : list text;         (* `isinstance(xv, A) or ...` *)
   f_reply_unless : list text;     (* `... or not isinstance(xv, B)` *)
   f_reraise : list text;          (* `if isCallback or isinstance(xv, (...)): raise` *)
+  f_reraise_guarded : bool;       (* that statement sits inside the `if not isinstance(xv, <f_noreply>)` block *)
   f_batch_catch : text;           (* batch loop: `except <C> as xv` *)
   f_batch_tb : bool;              (* xv._pyroTraceback = ... in the batch handler *)
   f_send_sets_tb : bool;          (* exc_value._pyroTraceback = tbinfo *)
@@ -151,6 +152,7 @@ Record facts := {
 Definition facts_today : facts := {|
   f_catch := c_Exception; f_noreply := [c_ConnectionClosedError]; f_reply_if := [c_SerializeError];
   f_reply_unless := [c_CommunicationError]; f_reraise := [c_CommunicationError; c_SecurityError];
+  f_reraise_guarded := false;
   f_batch_catch := c_Exception; f_batch_tb := true; f_send_sets_tb := true; f_fallback := true;
   f_fallback_catch := [c_Exception]; f_fallback_class := c_PyroError; f_fallback_tb := true;
   f_client_release := [c_CommunicationError; c_KeyboardInterrupt] |}.
@@ -170,7 +172,8 @@ Definition route (F : facts) (c : cinfo) : action :=
   else
     let reply := negb (isa_any c (f_noreply F)) &&
                  (isa_any c (f_reply_if F) || negb (isa_any c (f_reply_unless F))) in
-    let close := isa_any c (f_reraise F) in
+    let close := isa_any c (f_reraise F) &&
+                 (negb (f_reraise_guarded F) || negb (isa_any c (f_noreply F))) in
     match reply, close with
     | true, false => ReplyKeep
     | true, true => ReplyClose
@@ -317,7 +320,7 @@ Inductive outcome :=
 | OSerErr (cls : text)        (* the remote serializer's own error arrives instead (batch path) *)
 | OClientErr (cls : text)     (* raised locally while decoding / re-raising; no remote traceback *)
 | OConnLost                   (* no reply, connection closed: ConnectionClosedError *)
-| OTimeout                    (* no reply, connection open: TimeoutError *)
+| OHang                       (* no reply and the connection stays open: the caller blocks (until its timeout, if it has one) *)
 | OLocalErr (cls : text)      (* raised before anything was sent *)
 | OReturned.                  (* no exception at all *)
 
@@ -359,7 +362,7 @@ Section Call.
   Definition single (s : ser) (e : exc) (tbv : xval) : result :=
     match route F (e_cls e) with
     | Escape | NoReplyClose => lost
-    | NoReplyKeep => mk 0 OTimeout true (negb (releases c_TimeoutError))
+    | NoReplyKeep => mk 0 OHang true (negb (releases c_TimeoutError))
     | (ReplyKeep | ReplyClose) as a =>
       let srv := match a with ReplyKeep => true | _ => false end in
       match exc_payload s e tbv with
@@ -385,7 +388,7 @@ Section Call.
       end in
     match route F fci with
     | Escape | NoReplyClose => lost
-    | NoReplyKeep => mk 0 OTimeout true (negb (releases c_TimeoutError))
+    | NoReplyKeep => mk 0 OHang true (negb (releases c_TimeoutError))
     | ReplyKeep => arrives true
     | ReplyClose => arrives false
     end.
